@@ -38,7 +38,10 @@ import (
 	"strings"
 )
 
-func init() { register("wire", genWire) }
+func init() {
+	register("wire", genWire)
+	register("wiresym", genWireSym)
+}
 
 type wgen struct {
 	fset    *token.FileSet
@@ -885,7 +888,7 @@ func (g *wgen) analyseDecode(sname string, fd *ast.FuncDecl) (*wside, error) {
 			return nil, g.bad(st, "unsupported statement in Decode: %s", g.src(st))
 		}
 		switch callName(call) {
-		case "ReadElements":
+		case "ReadElements", "ReadElement":
 			into := &d.side.flds
 			if d.side.cond != nil {
 				// fields after the conditional part are not expressible
@@ -1388,6 +1391,94 @@ func (g *wgen) messages() ([]wmsg, error) {
 	return msgs, nil
 }
 
+// failures: code -> payload layout for every failure code of
+// makeEmptyOnionError whose payload the fragment expresses (no payload, or a
+// plain ReadElement/WriteX chain without extension data).
+func (g *wgen) failures(b, sym *strings.Builder) (ok []string, bad []string, err error) {
+	fd, found := g.funcs["makeEmptyOnionError"]
+	if !found {
+		return nil, nil, fmt.Errorf("lnwire: makeEmptyOnionError not found")
+	}
+	var sw *ast.SwitchStmt
+	ast.Inspect(fd, func(n ast.Node) bool {
+		if s, isSw := n.(*ast.SwitchStmt); isSw && sw == nil {
+			sw = s
+		}
+		return sw == nil
+	})
+	if sw == nil {
+		return nil, nil, fmt.Errorf("lnwire: makeEmptyOnionError has no switch")
+	}
+	type fc struct {
+		code  uint64
+		sname string
+	}
+	var fcs []fc
+	for _, cc := range sw.Body.List {
+		c := cc.(*ast.CaseClause)
+		if len(c.List) != 1 || len(c.Body) != 1 {
+			continue // default: unknown code
+		}
+		ret, isRet := c.Body[0].(*ast.ReturnStmt)
+		if !isRet || len(ret.Results) != 2 {
+			return nil, nil, fmt.Errorf("lnwire: makeEmptyOnionError case %s", g.src(c.List[0]))
+		}
+		u, isU := ret.Results[0].(*ast.UnaryExpr)
+		if !isU {
+			return nil, nil, fmt.Errorf("lnwire: makeEmptyOnionError case %s: not &T{}", g.src(c.List[0]))
+		}
+		cl, isCl := u.X.(*ast.CompositeLit)
+		if !isCl {
+			return nil, nil, fmt.Errorf("lnwire: makeEmptyOnionError case %s: not &T{}", g.src(c.List[0]))
+		}
+		v, evok := g.evalConst(c.List[0], 0, 0)
+		if !evok {
+			return nil, nil, fmt.Errorf("lnwire: failure code %s not evaluable", g.src(c.List[0]))
+		}
+		fcs = append(fcs, fc{v, g.src(cl.Type)})
+	}
+	sort.Slice(fcs, func(i, j int) bool { return fcs[i].code < fcs[j].code })
+	for _, f := range fcs {
+		dm, hasD := g.methods[f.sname+".Decode"]
+		em, hasE := g.methods[f.sname+".Encode"]
+		if !hasD && !hasE {
+			fmt.Fprintf(b, "Definition fail_%s : layout := [].  (* code %d: no payload *)\n", f.sname, f.code)
+			ok = append(ok, fmt.Sprintf("(%d, fail_%s)", f.code, f.sname))
+			continue
+		}
+		reason := ""
+		var dec, enc *wside
+		if !hasD || !hasE {
+			reason = "only one of Encode/Decode"
+		} else {
+			var derr, eerr error
+			dec, derr = g.analyseDecode(f.sname, dm)
+			enc, eerr = g.analyseEncode(f.sname, em)
+			switch {
+			case derr != nil:
+				reason = "Decode: " + derr.Error()
+			case eerr != nil:
+				reason = "Encode: " + eerr.Error()
+			case dec.tlv || enc.tlv || dec.term != "" || enc.term != "" || dec.cond != nil || enc.cond != nil:
+				reason = "payload with extension data / conditional fields"
+			}
+		}
+		if reason != "" {
+			reason = f.sname + ": " + reason
+			fmt.Fprintf(b, "(* unsupported failure: %s *)\n", strings.ReplaceAll(reason, "*)", "* )"))
+			bad = append(bad, fmt.Sprintf("(%d, %s)", f.code, coqString(reason)))
+			continue
+		}
+		fmt.Fprintf(b, "Definition failenc_%s : layout := %s.\n", f.sname, coqLayout(enc.flds))
+		fmt.Fprintf(b, "Definition fail_%s : layout := %s.  (* code %d *)\n", f.sname, coqLayout(dec.flds), f.code)
+		fmt.Fprintf(sym, "Example failencdec_%s : failenc_%s = fail_%s. Proof. reflexivity. Qed.\n",
+			f.sname, f.sname, f.sname)
+		ok = append(ok, fmt.Sprintf("(%d, fail_%s)", f.code, f.sname))
+	}
+	b.WriteString("\n")
+	return ok, bad, nil
+}
+
 func sameFields(a, b []wfield) bool {
 	if len(a) != len(b) {
 		return false
@@ -1400,11 +1491,32 @@ func sameFields(a, b []wfield) bool {
 	return true
 }
 
+// genWire emits the descriptions (Gen/GenWire.v); genWireSym emits the
+// Encode-layout = Decode-layout Examples (Gen/GenWireSym.v).  They are separate
+// files so that an asymmetry breaks the build of GenWireSym.v (=> proof stage
+// broken) while the model of the Decode side stays available to the
+// correspondence run, which then reports concrete failing inputs.
 func genWire(repo string) (string, string, error) {
+	m, _, err := wireCore(repo)
+	return "GenWire.v", m, err
+}
+
+func genWireSym(repo string) (string, string, error) {
+	_, s, err := wireCore(repo)
+	return "GenWireSym.v", s, err
+}
+
+func wireCore(repo string) (string, string, error) {
 	g, err := loadWire(repo)
 	if err != nil {
 		return "", "", err
 	}
+	var sym strings.Builder
+	sym.WriteString("(* GENERATED by /verif/translate (gen_wire.go) -- do not edit.\n")
+	sym.WriteString("   Encode-side description = Decode-side description, per message / failure code. *)\n")
+	sym.WriteString("From Coq Require Import List NArith Bool.\n")
+	sym.WriteString("From LV Require Import Wire.Model Wire.MsgModel Gen.GenWire.\n")
+	sym.WriteString("Import ListNotations.\nLocal Open Scope N_scope.\n\n")
 	// the pointer types ReadElement has a case for
 	if re, ok := g.funcs["ReadElement"]; ok {
 		ast.Inspect(re, func(n ast.Node) bool {
@@ -1493,8 +1605,9 @@ func genWire(repo string) (string, string, error) {
 			d2 := *dec
 			d2.known = dk
 			fmt.Fprintf(&b, "Definition msg_%s : tlvmsg := %s.\n", m.sname, coqMsg(&d2, ""))
-			fmt.Fprintf(&b, "Example encdec_%s : encmsg_%s = msg_%s. Proof. reflexivity. Qed.\n\n",
+			fmt.Fprintf(&sym, "Example encdec_%s : encmsg_%s = msg_%s. Proof. reflexivity. Qed.\n",
 				m.sname, m.sname, m.sname)
+			b.WriteString("\n")
 			tlvs = append(tlvs, fmt.Sprintf("(%d, msg_%s)", m.typ, m.sname))
 			meta = append(meta, fmt.Sprintf("(* @fields %d tlv %s ext=%s %s *)", m.typ, dec.mode,
 				dec.extFld, strings.Join(fl, " ")))
@@ -1521,7 +1634,7 @@ func genWire(repo string) (string, string, error) {
 		}
 		fmt.Fprintf(&b, "Definition enc_%s : layout := %s.\n", m.sname, coqLayout(el))
 		fmt.Fprintf(&b, "Definition dec_%s : layout := %s.\n", m.sname, coqLayout(dl))
-		fmt.Fprintf(&b, "Example encdec_%s : enc_%s = dec_%s. Proof. reflexivity. Qed.\n",
+		fmt.Fprintf(&sym, "Example encdec_%s : enc_%s = dec_%s. Proof. reflexivity. Qed.\n",
 			m.sname, m.sname, m.sname)
 		if !sameFields(enc.flds, dec.flds) {
 			fmt.Fprintf(&b, "(* field names differ: Encode %v / Decode %v *)\n", enc.flds, dec.flds)
@@ -1534,10 +1647,17 @@ func genWire(repo string) (string, string, error) {
 	wr := func(name, typ string, items []string) {
 		fmt.Fprintf(&b, "Definition %s : %s := [\n  %s\n].\n\n", name, typ, strings.Join(items, ";\n  "))
 	}
+	// ---- onion failure codes (makeEmptyOnionError) ----
+	fails, unsuppF, err := g.failures(&b, &sym)
+	if err != nil {
+		return "", "", err
+	}
 	wr("gen_layouts", "msg_table", plain)
+	wr("gen_failures", "msg_table", fails)
+	wr("unsupported_failures", "list (N * string)", unsuppF)
 	wr("gen_tlvmsgs", "tmsg_table", tlvs)
 	wr("msg_type_of", "list (string * N)", names)
 	wr("unsupported_messages", "list (N * string)", unsupp)
 	b.WriteString(strings.Join(meta, "\n") + "\n")
-	return "GenWire.v", b.String(), nil
+	return b.String(), sym.String(), nil
 }
